@@ -216,9 +216,12 @@ def case(spec):
                                 bad = '%s (%d sectors) content differs from sectors %d..%d (first block is %r)' % (
                                     f, len(got[f][1]) // 256, a, a + n - 1, dm.parse_fingerprint(blk))
                                 break
-                    m = re.search(rb'(\d+) files were written', r_.out)
-                    if not bad and (not m or int(m.group(1)) != len(exp_runs)):
-                        bad = 'reported count %r, expected %d' % (m.group(1) if m else None, len(exp_runs))
+                    # the count sentence is free text: judged only where a number of files can be read from it
+                    m = re.search(rb'(\d+) files?\b', r_.out)
+                    if m:
+                        res.add('extract_unused_count_sentences_read', 1)
+                    if not bad and m and int(m.group(1)) != len(exp_runs):
+                        bad = 'reported count %r, expected %d' % (m.group(1), len(exp_runs))
                     if bad:
                         res.violation('extract-unused-mismatch', 'extract-unused: ' + bad,
                                       {'run': r_.brief(), 'surface': s.describe()}, files, r_.argv)
